@@ -1814,6 +1814,15 @@ bus_pending_reply_send_no_reply (BusConnections  *connections,
   return retval;
 }
 
+#ifdef DBUS_VERIF_SIM
+/* Verification hook (off by default): observation-only callback telling an
+ * in-process simulation harness that a pending reply has just been expired
+ * (timeout, or replier gone) and NoReply sent to the caller. */
+void (*_bus_verif_probe_reply_expired) (DBusConnection *will_get_reply,
+                                        DBusConnection *will_send_reply,
+                                        dbus_uint32_t   reply_serial) = NULL;
+#endif
+
 static dbus_bool_t
 bus_pending_reply_expired (BusExpireList *list,
                            DBusList      *link,
@@ -1847,6 +1856,13 @@ bus_pending_reply_expired (BusExpireList *list,
     }
 
   bus_expire_list_remove_link (connections->pending_replies, link);
+
+#ifdef DBUS_VERIF_SIM
+  if (_bus_verif_probe_reply_expired != NULL)
+    _bus_verif_probe_reply_expired (pending->will_get_reply,
+                                    pending->will_send_reply,
+                                    pending->reply_serial);
+#endif
 
   bus_pending_reply_free (pending);
   bus_transaction_execute_and_free (transaction);
